@@ -57,6 +57,7 @@ def hashFn (mode : Nat) (k : Nat) : Nat :=
   else if mode = 1 then 7
   else if mode = 2 then k % 2
   else if mode = 3 then 2 ^ 64 - 1 - k      -- (usize)~k: huge hash codes
+  else if mode = 6 then Nstd.Generated.HashFn.hash_ptr k     -- `hash(const void*)` as translated, key number = address
   else k / 2
 
 /-- (items per block, default capacity) of the container class in the current sources (translator output) -/
